@@ -165,6 +165,7 @@ structure Stack where
   watchAll : List LId := []
   found : TStore SvcKey := []
   storeLog : List (Bool × SvcKey × Addr) := []   -- ghost: every store-level notification (true = offered) in order
+  sendLog : List (Dest × (Bool × Nat)) := []     -- ghost: every (destination, (reboot flag, session id)) send_sd drew from the session storage
   findTask : Option Nat := none
   -- ServiceSubscriber
   alive : Bool := false
@@ -214,7 +215,7 @@ def armTtl (s : Stack) (ttl : Nat) (cb : Cb) : Stack × Option Nat :=
 def sendSd (s : Stack) (entries : List SDEntry) (remote : Dest) : Stack :=
   if entries.isEmpty then s else
   let r := assignOutgoing s.outgoing remote
-  let s := { s with outgoing := r.2 }
+  let s := { s with outgoing := r.2, sendLog := s.sendLog ++ [(remote, r.1)] }
   let msg : SDHeader := { entries, flagReboot := r.1.1, flagUnicast := true }
   match msg.assignOptionIndexes.build with
   | .error e => s.emit (.raised e)
